@@ -3,6 +3,7 @@ CONSTANTS
   NR = 1
   Form = "two"
   Alpha = "two1"
+  XLess = {}
   Export = TRUE
 SPECIFICATION Spec
 INVARIANT TypeOK
